@@ -174,7 +174,35 @@ class Part:
     self.shrinker = shrinker      # optional: case -> iterable of simpler cases (greedy minimiser instead of hypothesis.find)
 
 
+def _measured(fn):
+  """with VT_COVERAGE_DIR set, each shard records which lines of the tree under test it executes (tools/anchor_coverage.py)"""
+  def wrapper(args):
+    cdir = os.environ.get("VT_COVERAGE_DIR")
+    if not cdir:
+      return fn(args)
+    import coverage
+    src = os.path.join(os.environ.get("VT_REPO", "/repo"), "src", "main", "python", "ttconv")
+    cov = coverage.Coverage(data_file=os.path.join(cdir, ".coverage"), data_suffix=True, include=[src + "/*"])
+    cov.start()
+    try:
+      return fn(args)
+    finally:
+      cov.stop()
+      cov.save()
+  wrapper.__name__ = fn.__name__
+  return wrapper
+
+
 def _hyp_shard(args):
+  return _hyp_shard_body(args)
+
+
+def _enum_shard(args):
+  return _enum_shard_body(args)
+
+
+@_measured
+def _hyp_shard_body(args):
   modname, partname, tier, seed, n, budget = args
   logging.disable(logging.CRITICAL)
   import hypothesis
@@ -210,7 +238,8 @@ def _hyp_shard(args):
   return ("ok", acc)
 
 
-def _enum_shard(args):
+@_measured
+def _enum_shard_body(args):
   modname, partname, tier, chunk = args
   logging.disable(logging.CRITICAL)
   mod = importlib.import_module(modname)
